@@ -505,3 +505,161 @@ def index_hash_checked(crate):
         return True
     _check_paths(ex, res, outs, per_path)
     return P.finish(ex, res, ["accepted", "hash mismatch rejected"])
+
+
+def _task_single_flight(crate, method, field, label):
+    fn = crate.method("ObserverWorker", method)
+    running = z3.Bool("previous_task_running")
+
+    def h_map_or(ex_, st_, frame, t, nf, args, dty):
+        some = ex_.get_discr(st_, args[0]).t == BV64(1)
+        return [(Sym(z3.If(some, running, args[1].t), "bool"), None)]
+
+    def h_spawn(ex_, st_, frame, t, nf, args, dty):
+        h = Obj(dty)
+        st_.events.append(("call", "tokio::spawn", args, h))
+        return [(h, None)]
+    ex = P.mk_executor(crate, cap=2, loop_bound=4, inline=[],
+                       extra_summaries=[(r"^(std::option::)?Option::<.*>::map_or$|^(std::option::)?Option::map_or$", h_map_or), (r"^(tokio::)?(task::)?spawn$", h_spawn)])
+    st = State()
+    w = Obj("observer_worker::ObserverWorker<K>")
+    ft = Obj("std::option::Option<tokio::task::JoinHandle<()>>")
+    had = z3.BitVec("previous_task_present", 64)
+    st.pc.append(z3.Or(had == BV64(0), had == BV64(1)))
+    ft.discr = Sym(had, "isize")
+    fti = crate.field_index("ObserverWorker", field)
+    w.fields[(None, fti)] = ft
+    w.fields[(None, crate.field_index("ObserverWorker", "inner"))] = Obj("std::sync::Arc<storage::core::Inner<K>>")
+    wc = st.new_cell(w)
+    outs = P.drive_async(ex, st, fn, [Ref(wc, (), True, "&mut ObserverWorker<K>")])
+    return ex, outs, wc, fti, had, running
+
+
+def dump_task_single_flight(crate):
+    """C13/C12: ObserverWorker::try_run_old_blob_indexes_dump_task starts the background index-dump task (returns true, keeps
+    its handle) unless the previous one is still running (returns false, nothing spawned) — with no previous task or a
+    finished one a new task IS started, so a requested dump is never silently dropped."""
+    res = P.ObResult("dump_task_single_flight")
+    res.functions = ["ObserverWorker::try_run_old_blob_indexes_dump_task (async body)"]
+    res.bounds = "previous task absent / running / finished"
+    ex, outs, wc, fti, had, running = _task_single_flight(crate, "try_run_old_blob_indexes_dump_task", "index_dump_task", "dump")
+    res.paths = len(outs)
+    for o in outs:
+        if o.status in ("infeasible", "unwind"):
+            continue
+        if o.status != "returned":
+            P.prove(ex, res, o, z3.BoolVal(False), "no panic (%s)" % o.note)
+            return P.finish(ex, res, [])
+        ready, payload = P.poll_payload(ex, o, o.result)
+        spawns = [e for e in o.events if e[0] == "call" and e[1] == "tokio::spawn"]
+        busy = z3.And(had == BV64(1), running)
+        if not P.prove(ex, res, o, z3.Implies(busy, z3.And(z3.Not(payload.t), z3.BoolVal(not spawns))), "previous dump task still running: no second task, false"):
+            return P.finish(ex, res, [])
+        if not P.prove(ex, res, o, z3.Implies(z3.Not(busy), z3.And(payload.t, z3.BoolVal(len(spawns) == 1))), "otherwise exactly one task is spawned, true"):
+            return P.finish(ex, res, [])
+        if spawns and not P.prove(ex, res, o, ex.get_discr(o, o.mem[wc].fields[(None, fti)]).t == BV64(1), "the new task's handle is kept"):
+            return P.finish(ex, res, [])
+        P.cover(ex, res, o, busy, "busy")
+        P.cover(ex, res, o, z3.And(had == BV64(0), payload.t), "first task started")
+    return P.finish(ex, res, ["busy", "first task started"])
+
+
+def inner_new_state(crate):
+    """C12/C07: Inner::new: a fresh storage starts with no sync in flight (otherwise no background sync would ever start),
+    blob ids from 0 and a zero corrupted-blob count."""
+    res = P.ObResult("inner_new_state")
+    fn = crate.method("Inner", "new")
+    res.functions = ["Inner::new"]
+    res.bounds = "all inputs"
+    ex = P.mk_executor(crate, cap=2, loop_bound=4, inline=[], havoc=[r"^(tokio::sync::)?RwLock::new$", r"^(tokio::sync::)?RwLock::<.*>::new$"])
+    st = State()
+    ex.push_frame(st, fn, [Obj("storage::config::Config"), Obj("io::unix::sync::IoDriver")], None, None)
+    outs = ex.run(st)
+    res.paths = len(outs)
+    for o in outs:
+        if o.status in ("infeasible", "unwind"):
+            continue
+        if o.status != "returned":
+            P.prove(ex, res, o, z3.BoolVal(False), "no panic (%s)" % o.note)
+            return P.finish(ex, res, [])
+        inner = o.result
+
+        def atom(name, ty):
+            a = inner.fields.get((None, crate.field_index("Inner", name)))
+            return ex._get_field(o, a, None, 7002, ty).t if isinstance(a, Obj) else None
+        f, nb, cb = atom("fsync_in_progress", "bool"), atom("next_blob_id", "usize"), atom("corrupted_blobs", "usize")
+        if f is None or nb is None or cb is None:
+            res.status = "inconclusive"; res.detail = "atomic fields not constructed through the modelled constructor"; return P.finish(ex, res, [])
+        if not P.prove(ex, res, o, z3.And(z3.Not(f), nb == BV64(0), cb == BV64(0)), "no sync in flight, ids from 0, no corrupted blobs"):
+            return P.finish(ex, res, [])
+        P.cover(ex, res, o, z3.BoolVal(True), "constructed")
+    return P.finish(ex, res, ["constructed"])
+
+
+def init_new_ids(crate):
+    """C07/C03: Storage::init_new (empty work dir): next_blob_id ends above every id found in the corrupted-blobs directory
+    before the first blob is named, the corrupted count is taken over, and an active blob is installed on success."""
+    res = P.ObResult("init_new_ids")
+    fn = crate.method("Storage", "init_new")
+    res.functions = ["Storage::init_new (async body)"]
+    res.bounds = "arbitrary counters (< 2^40), every outcome of the callees"
+    ex = P.mk_executor(crate, cap=2, loop_bound=4, inline=[], havoc=[r"^Config::", r"^(async_lock::)?RwLock::(<.*>::)?new$", r"^<.* as Clone>::clone$"])
+    st = State()
+    storage = Obj("storage::core::Storage<K>")
+    inner = Obj("storage::core::Inner<K>")
+    nb = Obj("std::sync::atomic::AtomicUsize")
+    nb0 = z3.BitVec("next_blob_id_before", 64)
+    st.pc.append(z3.ULT(nb0, BV64(1 << 40)))
+    nb.fields[(None, 7002)] = Sym(nb0, "usize")
+    inner.fields[(None, crate.field_index("Inner", "next_blob_id"))] = nb
+    ic = st.new_cell(inner)
+    arc = Obj("std::sync::Arc<storage::core::Inner<K>>")
+    arc.fields[(None, 7001)] = Ref(ic, (), True, "&storage::core::Inner<K>")
+    storage.fields[(None, crate.field_index("Storage", "inner"))] = arc
+    sc = st.new_cell(storage)
+
+    def hook(ex_, st_, name, fargs, out_ty, dty):
+        if "count_old_corrupted_blobs" in name:
+            r = ex_.fresh(out_ty, st_, "ids")
+            lim = BV64(1 << 40)
+            st_.pc.append(z3.ULT(ex_._get_field(st_, r, None, 0, "usize").t, lim))
+            st_.pc.append(z3.ULT(ex_._get_field(st_, ex_._get_field(st_, r, None, 1, "Option<usize>"), "Some", 0, "usize").t, lim))
+            st_.events.append(("await", name, fargs, r))
+            return [(S.poll_ready(dty, r), None)]
+        return None
+    ex.await_hook = hook
+
+    def call_hook(ex_, st_, cname, args, dty):
+        if cname == "Inner::next_blob_name":
+            cur = st_.mem[ic].fields[(None, crate.field_index("Inner", "next_blob_id"))].fields[(None, 7002)].t
+            r = ex_.fresh(dty, st_, "name")
+            st_.events.append(("call", cname, [Sym(cur, "usize")], r))
+            return [(r, None)]
+        return None
+    ex.call_hook = call_hook
+    outs = P.drive_async(ex, st, fn, [Ref(sc, (), True, "&mut storage::core::Storage<K>")])
+    res.paths = len(outs)
+
+    def per_path(o, isok, payload):
+        evs = P.events_of(o)
+        cnt = [e for e in evs if e[0] == "await" and "count_old_corrupted_blobs" in e[1]]
+        names = [e for e in evs if e[0] == "call" and e[1] == "Inner::next_blob_name"]
+        if not cnt:
+            return P.prove(ex, res, o, z3.Not(isok), "Ok => the corrupted directory was counted")
+        tup = cnt[0][3]
+        mx = ex._get_field(o, tup, None, 1, "Option<usize>")
+        has = ex.get_discr(o, mx).t == BV64(1)
+        mv = ex._get_field(o, mx, "Some", 0, "usize").t
+        for e in names:
+            if not P.prove(ex, res, o, z3.Implies(has, z3.UGT(e[2][0].t, mv)), "the first blob is named with an id above every quarantined id"):
+                return False
+        if not P.prove(ex, res, o, z3.Implies(isok, z3.BoolVal(len(names) == 1)), "Ok => a blob name was allocated"):
+            return False
+        final = o.mem[ic].fields[(None, crate.field_index("Inner", "next_blob_id"))].fields[(None, 7002)].t
+        if not P.prove(ex, res, o, z3.Implies(has, z3.UGT(final, mv)), "next_blob_id ends above every quarantined id"):
+            return False
+        P.cover(ex, res, o, z3.And(isok, has), "quarantine directory not empty")
+        P.cover(ex, res, o, z3.And(isok, z3.Not(has)), "no quarantined blobs")
+        return True
+    _check_paths(ex, res, outs, per_path)
+    return P.finish(ex, res, ["quarantine directory not empty", "no quarantined blobs"])
